@@ -615,7 +615,8 @@ class Gen:
         o = world.obs[s]
         n = len(o.text)
         q = r.choice(['settings_at', 'settings_at', 'flags', 'eq', 'contains', 'len', 'base_str', 'encode', 'repr', 'count',
-                      'find', 'rfind', 'endswith', 'isalnum', 'islower', 'isspace', 'istitle', 'isupper', 'isascii'])
+                      'find', 'rfind', 'index', 'rindex', 'endswith', 'isalnum', 'isalpha', 'isascii', 'isdecimal', 'isdigit',
+                      'isidentifier', 'islower', 'isnumeric', 'isprintable', 'isspace', 'istitle', 'isupper'])
         op = {'op': 'query', 'r': s, 'q': q}
         if q == 'settings_at':
             op['idx'] = [r.choice([-1, 0, n - 1, n, n + 1, r.randint(0, max(0, n)), -n, 10 ** 6]) for _ in range(4)]
@@ -624,8 +625,13 @@ class Gen:
                 op['idx'].append(r.choice(cps))
         elif q in ('eq', 'contains'):
             op['o'] = self.operand(world, s)
-        elif q in ('count', 'find', 'rfind', 'endswith'):
+        elif q in ('count', 'find', 'rfind', 'endswith', 'index', 'rindex'):
             op['args'] = [self.pattern(o)] + ([self.index(o)] if r.random() < 0.4 else [])
+            if r.random() < 0.3 and len(op['args']) == 2:
+                op['args'].append(self.index(o))
+            if q in ('index', 'rindex') and (not o.text or self.oracle.prop == 'C09'):
+                # an absent substring raises ValueError; C09 injects that as a fault of its own
+                op['q'] = 'find' if q == 'index' else 'rfind'
         return op
 
     def g_simplify(self, world):
